@@ -107,6 +107,19 @@ def _after_docstring(cls: ast.ClassDef) -> int:
     return 1 if b and isinstance(b[0], ast.Expr) and isinstance(b[0].value, ast.Constant) and isinstance(b[0].value.value, str) else 0
 
 
+def _has_own_return(st: ast.AST) -> bool:
+    """A return statement of the function st belongs to (not of a nested function or lambda)."""
+    stack = [st]
+    while stack:
+        n = stack.pop()
+        if isinstance(n, ast.Return):
+            return True
+        for c in ast.iter_child_nodes(n):
+            if not isinstance(c, (ast.FunctionDef, ast.AsyncFunctionDef, ast.Lambda, ast.ClassDef)):
+                stack.append(c)
+    return False
+
+
 def _abstract_body(fn: ast.AST) -> bool:
     if not isinstance(fn, ast.FunctionDef):
         return False
@@ -592,6 +605,16 @@ class Normaliser:
                 return None
             if r.provenance != 'own' or not self.func_unknown(f'{r.owner.qual}.{r.node.name}'):
                 return None
+            # a method the rules know under the calling class, now written in a new base class / mixin and copied down
+            # again by step 1: the call is re-addressed to the known name instead of being inlined
+            if cls is not None and self.class_unknown(r.owner) and not self.func_unknown(f'{cls.qual}.{r.node.name}'):
+                rc = table.resolve(cls, f.attr)
+                if rc is not None and rc.node is r.node and bound is None:
+                    f.value = ast.Name(id=cls.name, ctx=ast.Load(), lineno=getattr(f, 'lineno', 1), col_offset=getattr(f, 'col_offset', 0))
+                    f.value._omod = cls.module.name  # type: ignore[attr-defined]
+                    return None
+                if rc is not None and rc.node is r.node:
+                    return None
             decos = _decorators(world, r.node)
             kind = 'static' if 'staticmethod' in decos else 'class' if 'classmethod' in decos else 'method'
             if decos - {'staticmethod', 'classmethod'}:
@@ -807,6 +830,9 @@ class Normaliser:
             if isinstance(st, ast.Raise):
                 out.append(st)
                 return out, True
+            if isinstance(st, ast.If) and not _has_own_return(st):
+                out.append(st)  # branches that only fall through or raise need no restructuring
+                continue
             if isinstance(st, ast.If):
                 b, bt = self._single_exit(st.body, res)
                 o, ot = self._single_exit(st.orelse, res)
